@@ -241,6 +241,15 @@ def run(run, tier):
     import EoN.simulation as sim
     rng = run.rng
     props = C.check_props('C12')
+    # the deferred-decision lift (law of the whole run): Props/C12law.v joins the obligations
+    xp = C.check_props('C12law')
+    props['theorems'] = list(props['theorems']) + list(xp['theorems'])
+    props['axioms'] = dict(props['axioms'], **xp['axioms'])
+    if not xp['ok']:
+        props['ok'] = False
+        props['log'] = (props.get('log') or '') + ' | ' + xp['log'][-400:]
+        run.violation('C12/proof/C12law', 'Props/C12law.v no longer checks: %s' % xp['log'][-400:],
+                      {'broken': 'coq/Props/C12law.v', 'log': xp['log']}, no_input=True)
     ok, log = C.build_driver('disc')
     if not ok:
         run.violation('C12/build', 'extracted model does not build: ' + log[-500:], {'log': log[-3000:]}, no_input=True)
